@@ -65,7 +65,10 @@ def _has_strings(fmls):
 def check_unsat(fmls, timeout_ms=30000, cvc5_fallback=True, crosscheck=False, want_model=True, tactic=None):
     """Is the conjunction of fmls unsatisfiable?  -> Result(status in unsat|sat|unknown)"""
     s = z3.Solver() if tactic is None else z3.Tactic(tactic).solver()
-    s.set("timeout", timeout_ms)
+    fmls = list(fmls)
+    strings = _has_strings(fmls)
+    # z3's sequence solver is erratic; give it a short first try on string VCs and let cvc5 take over
+    s.set("timeout", min(timeout_ms, 4000) if (strings and cvc5_fallback) else timeout_ms)
     s.add(fmls)
     t = time.time()
     r = s.check()
